@@ -19,6 +19,7 @@ from vt.main import decide
 from props import build_common as bc
 import pegdump
 import mmdump
+import peggen
 
 SPEC_IMPORTS = ("From TxV Require Import Core.Base Core.Show Model.PegSyntax Model.Peg Model.PegShow Model.Build Model.Spec.\n"
                 "Open Scope string_scope.\n" + r"""
@@ -179,6 +180,201 @@ def check_modifiers(case, res):
     return bad
 
 
+# ---------------------------------------------------------------- (d) the compiled parser is the image of the grammar
+ASG_KIND = {"=": "KSeq", "?=": "KOpt", "*=": "KStar", "+=": "KPlus"}
+REP_KIND = {"?": "KOpt", "*": "KStar", "+": "KPlus", "#": "KUnord"}
+
+
+def ast_signature(e, sig):
+    """multiset of the constructs a rule body must compile to (sequence/choice nesting is not counted:
+    textX collapses single-element groups)"""
+    k = e[0]
+
+    def add(x):
+        sig[x] = sig.get(x, 0) + 1
+    if k == "str":
+        add(("lit", e[1]))
+    elif k == "re":
+        add(("re", peggen.REGEXES[e[1]][0]))
+    elif k == "ref":
+        add(("ref", e[1]))
+    elif k in ("seq", "alt"):
+        for x in e[1]:
+            ast_signature(x, sig)
+    elif k == "rep":
+        add(("rep", REP_KIND[e[1]], e[3] is not None, bool(e[4])))
+        if e[3] is not None:
+            add(("sep", e[3][1] if e[3][0] == "str" else peggen.REGEXES[e[3][1]][0]))
+        if e[1] == "#":
+            for x in (e[2][1] if e[2][0] == "seq" else [e[2]]):
+                ast_signature(x, sig)
+        else:
+            ast_signature(e[2], sig)
+    elif k == "pred":
+        add(("pred", "KAnd" if e[1] == "&" else "KNot"))
+        ast_signature(e[2], sig)
+    elif k == "sup":
+        add(("suppress",))
+        ast_signature(e[1], sig)
+    elif k == "asg":
+        add(("asg", e[1], ASG_KIND[e[2]], e[4] is not None, bool(e[5])))
+        if e[4] is not None:
+            add(("sep", e[4][1] if e[4][0] == "str" else peggen.REGEXES[e[4][1]][0]))
+        ast_signature(e[3], sig)
+    return sig
+
+
+def dump_signature(res, root, names):
+    dump, mm = res["dump"], res["mm"]
+    nodes = dump["nodes"]
+    sig = {}
+
+    def add(x):
+        sig[x] = sig.get(x, 0) + 1
+
+    def term_key(nd):
+        if nd["kind"] == "KStr":
+            return nd["text"]
+        return dump["oracles"][nd["oid"]][1]
+    seen = set()
+
+    def walk(i, top):
+        nd = nodes[i]
+        if not top and nd["rule"] in names and nd["root"]:
+            add(("ref", nd["rule"]))
+            return
+        if i in seen:
+            return
+        seen.add(i)
+        if nd["suppress"]:
+            add(("suppress",))
+        k = nd["kind"]
+        if mm[i]["k"] == "asgn":
+            add(("asg", mm[i]["attr"], k, nd["sep"] is not None, bool(nd["eolterm"])))
+        elif k in ("KOpt", "KStar", "KPlus", "KUnord"):
+            add(("rep", k, nd["sep"] is not None, bool(nd["eolterm"])))
+        elif k in ("KAnd", "KNot"):
+            add(("pred", k))
+        elif k == "KStr":
+            add(("lit", nd["text"]))
+        elif k == "KRegex":
+            add(("re", term_key(nd)))
+        if nd["sep"] is not None:
+            add(("sep", term_key(nodes[nd["sep"]])))
+        for c in nd["kids"]:
+            walk(c, False)
+    walk(root, True)
+    return sig
+
+
+def check_compiled(case, res):
+    """every reachable rule of the generated grammar compiles to the constructs its body lists"""
+    bad = []
+    g = case.get("ast")
+    if not g:
+        return bad
+    names = {n for n, _, _ in g["rules"]} | set(peggen.BASE) | {"CB", "CL", "Comment"}
+    alias = {n: b[1] for n, p_, b in g["rules"] if b[0] == "ref" and not p_}
+    roots = {}
+    for i, nd in enumerate(res["dump"]["nodes"]):
+        if nd["root"] and nd["rule"] in names and res["mm"][i]["k"] != "asgn":
+            roots.setdefault(nd["rule"], i)
+    top = res["dump"]["nodes"][res["dump"]["top"]]
+    for idx, (name, params, body) in enumerate(g["rules"]):
+        if body[0] == "ref" and not params:
+            continue                       # `A: B;` has no node of its own
+        if idx == 0:
+            root = top["kids"][0]
+        elif name in roots:
+            root = roots[name]
+        else:
+            continue                       # unreachable rule
+        want = {}
+        for key, cnt in ast_signature(body, {}).items():
+            if key[0] == "ref":            # `A: B;` is an alias: references to A are references to B's node
+                t = key[1]
+                for _ in range(10):
+                    if t in alias:
+                        t = alias[t]
+                key = ("ref", t)
+            want[key] = want.get(key, 0) + cnt
+        got = dump_signature(res, root, names)
+        if want != got:
+            miss = {k: v for k, v in want.items() if got.get(k) != v}
+            extra = {k: v for k, v in got.items() if want.get(k) != v}
+            bad.append("rule %s does not compile to its body: grammar lists %r, compiled parser has %r" % (name, sorted(miss.items(), key=repr), sorted(extra.items(), key=repr)))
+    return bad
+
+
+def check_metaattrs(res):
+    """(g) metamodel attributes agree with the assignment nodes of the class' rule: bool_assignment <=> assigned by
+    ?=; assigned by += => multiplicity 1..*; assigned by *= => a many multiplicity"""
+    bad = []
+    nodes, mm = res["dump"]["nodes"], res["mm"]
+    for nid, e in enumerate(mm):
+        if e["k"] != "rule" or e["type"] != "common":
+            continue
+        ops = {}
+        seen, todo = set(), [nid]
+        while todo:
+            i = todo.pop()
+            if i in seen:
+                continue
+            seen.add(i)
+            if mm[i]["k"] == "asgn":
+                ops.setdefault(mm[i]["attr"], set()).add(mm[i]["op"])
+                continue                                  # the right-hand side belongs to another rule or is a match
+            if i != nid and mm[i]["k"] == "rule":
+                continue
+            nd = nodes[i]
+            todo += nd["kids"] + ([nd["sep"]] if nd["sep"] is not None else [])
+        for a in e["attrs"]:
+            o = ops.get(a["name"])
+            if o is None:
+                continue                                  # inherited / not assigned in this rule's own body
+            if a["bool"] != ("optional" in o):
+                bad.append("class %s: attribute %s is assigned by %s but bool_assignment is %s" % (e["cls"], a["name"], sorted(o), a["bool"]))
+            if "oneormore" in o and a["mult"] != "1..*":
+                bad.append("class %s: attribute %s is assigned by += but its multiplicity is %s" % (e["cls"], a["name"], a["mult"]))
+            if "zeroormore" in o and a["mult"] not in ("0..*", "1..*"):
+                bad.append("class %s: attribute %s is assigned by *= but its multiplicity is %s" % (e["cls"], a["name"], a["mult"]))
+    return bad
+
+
+def check_attr_shapes(case, im):
+    """?= attributes are booleans, += / *= attributes are lists (generated grammars: the operator is known)"""
+    g = case.get("ast")
+    if not g or not im.get("ok"):
+        return []
+    ops = {}
+
+    def walk(e, rule):
+        if e[0] == "asg":
+            ops.setdefault((rule, e[1]), set()).add(e[2])
+        elif e[0] in ("seq", "alt"):
+            for x in e[1]:
+                walk(x, rule)
+        elif e[0] == "rep":
+            walk(e[2], rule)
+        elif e[0] == "pred":
+            walk(e[2], rule)
+        elif e[0] == "sup":
+            walk(e[1], rule)
+    for n, _, b in g["rules"]:
+        walk(b, n)
+    bad = []
+    for o, parent, attr in bc.iter_objects(im["value"]):
+        for a, v in o["attrs"]:
+            op = ops.get((o["cls"], a))
+            if not op:
+                continue
+            if op == {"?="} and not (isinstance(v, dict) and "b" in v):
+                bad.append("%s.%s is assigned with ?= but its value is %r, not a boolean" % (o["cls"], a, v))
+            if op <= {"+=", "*="} and not (isinstance(v, dict) and "l" in v):
+                bad.append("%s.%s is assigned with +=/*= but its value is %r, not a list" % (o["cls"], a, v))
+    return bad
+
+
 def run(chk):
     chk.prove([])
     n, per = (500, 4) if chk.thorough else (100, 3)
@@ -196,7 +392,7 @@ def run(chk):
         chk.stat("grammars: %s" % ("in the theorem's class (wfg)" if not tags else "outside wfg"))
         for t in sorted(tags):
             chk.stat("grammar has: " + t)
-        for what in check_modifiers(case, res):
+        for what in check_modifiers(case, res) + check_compiled(case, res) + check_metaattrs(res):
             failures.append({"case": {"grammar": case["grammar"], "opts": case["opts"]}, "what": what, "tags": []})
         for ii, (text, run_) in enumerate(zip(case["inputs"], res["runs"])):
             if run_.get("timeout") or run_.get("unsupported"):
@@ -249,6 +445,8 @@ def run(chk):
                         bad = bad or "object %s has undeclared attributes %r" % (o["cls"], o["extra"])
                     if not o["parent_ok"]:
                         bad = bad or "object %s: parent link is not its container" % o["cls"]
+            for what in check_attr_shapes(case, im):
+                failures.append({"case": cinfo, "what": what, "tags": [], "impl": im})
             if bad:
                 chk.stat("impl deviates from the reference semantics")
                 failures.append({"case": cinfo, "what": bad, "tags": ctags, "impl": [tree[:300], im], "model": mv[1][:300]})
